@@ -77,6 +77,9 @@ pub struct Cfg {
     pub defer_ctid_wake_max: u32,
     /// after the first injected clone failure every later clone of the run fails with EAGAIN too
     pub clone_keeps_failing: bool,
+    /// a parked-to-be FUTEX_WAIT is interrupted instead (a signal with a handler, no SA_RESTART):
+    /// -EINTR with chance 1/den, at most 3 times per run; 0 = never
+    pub futex_eintr_den: u32,
     /// draw the uniform scheduling mode (a thread choice at every scheduling point) in half of
     /// the runs instead of one in six
     pub prefer_uniform: bool,
@@ -105,6 +108,7 @@ impl Cfg {
             window_hold_max: 0,
             defer_ctid_wake_max: 0,
             clone_keeps_failing: false,
+            futex_eintr_den: 0,
             prefer_uniform: false,
         }
     }
@@ -228,6 +232,7 @@ pub struct Out {
     pub parks: u64,
     pub futex_timeouts: u64,
     pub deferred_ctid_wakes: u64,
+    pub futex_eintrs: u32,
     pub wakes: u64,
     pub ctid_wakes: u64,
     pub eagain: u64,
@@ -426,6 +431,7 @@ struct Tracer<'a> {
     timeouts: u64,
     pending_ctid_wakes: Vec<(u64, usize, u64)>,
     clone_failures_in_a_row: u32,
+    futex_eintrs: u32,
     deferred_ctid_wakes: u64,
     wakes: u64,
     ctid_wakes: u64,
@@ -517,6 +523,7 @@ pub fn run(cfg: &Cfg, dec: &mut Dec) -> Out {
         timeouts: 0,
         pending_ctid_wakes: Vec::new(),
         clone_failures_in_a_row: 0,
+        futex_eintrs: 0,
         deferred_ctid_wakes: 0,
         wakes: 0,
         ctid_wakes: 0,
@@ -570,6 +577,7 @@ pub fn run(cfg: &Cfg, dec: &mut Dec) -> Out {
         parks: t.parks,
         futex_timeouts: t.timeouts,
         deferred_ctid_wakes: t.deferred_ctid_wakes,
+        futex_eintrs: t.futex_eintrs,
         wakes: t.wakes,
         ctid_wakes: t.ctid_wakes,
         eagain: t.eagain,
@@ -1253,6 +1261,11 @@ impl<'a> Tracer<'a> {
                         if w != a[2] as u32 {
                             self.eagain += 1;
                             return Ok(Act::Emu(-(libc::EAGAIN as i64), false));
+                        }
+                        if self.cfg.futex_eintr_den > 0 && self.futex_eintrs < 3 && self.dec.chance(K::Fault, 1, self.cfg.futex_eintr_den) {
+                            self.futex_eintrs += 1;
+                            self.log(t, E_FAULT, libc::EINTR as u64, 11, || format!("t{t} fault: futex_wait(f{fid}) interrupted -> -EINTR"));
+                            return Ok(Act::Emu(-(libc::EINTR as i64), true));
                         }
                         if self.cfg.faults.spurious_futex && self.fault(t, "spurious_futex", &[0]).is_some() {
                             return Ok(Act::Emu(0, true));
